@@ -1,6 +1,8 @@
 (* C26 -- a DomainError ("Matrix dimension mismatch" / empty operand list) is never spurious:
    when matrix_add, hadamard_product or matrix_mul throw it, the dense computation is undefined
-   under every environment. *)
+   under every environment.  For matrix_mul this covers the size check of adjacent factors and the
+   guards of the four folding helpers (mul_diag_diag, mul_dense_dense, mul_diag_dense, mul_dense_diag),
+   which compare the accumulated concrete product with the next concrete factor. *)
 From SE Require Import C26.MatSpec C26.MatLemmas C26.MatAddProofs C26.MatHadProofs C26.MatUnaryProofs
   C26.MatMulAlg C26.MatMulProofs C26.MatWfAdd.
 From Coq Require Import Lia.
@@ -172,39 +174,132 @@ Proof.
   unfold check_matching_mul_sizes. destruct l as [|x l]; [reflexivity|]. cbn [map]. apply check_mul_rest_fail.
 Qed.
 
-Lemma mul_steps_noexn st x c : mul_step st x <> ErrExn c.
+(* the folding helpers: the only exception is the DomainError of the size guard, and it is thrown
+   only when the operand sizes really do not fit *)
+Lemma mul_diag_diag_exn a b c :
+  mul_diag_diag a b = ErrExn c -> c = EXN_DOMAIN /\ length a <> length b.
+Proof.
+  unfold mul_diag_diag. destruct (Nat.eqb_spec (length a) (length b)) as [E|E]; cbn [negb].
+  - intros H. exfalso. exact (zipc_noexn emul a b 0 c H).
+  - intros H. inversion H; subst. split; [reflexivity | exact E].
+Qed.
+
+Lemma mul_dense_diag_exn m n v d c :
+  mul_dense_diag m n v d = ErrExn c -> c = EXN_DOMAIN /\ length d <> n.
+Proof.
+  unfold mul_dense_diag. destruct (Nat.eqb_spec (length d) n) as [E|E]; cbn [negb].
+  - intros H. exfalso. unfold tab2 in H.
+    match type of H with (do p <- mapM ?f ?l; _) = _ => assert (G : mapM f l <> ErrExn c) end.
+    { apply mapM_noexn. intros [i j]. cbn [fst snd].
+      pose proof (rd_noexn d j c). destruct (rd d j); cbn [bind]; try congruence.
+      pose proof (rd_noexn v (i * n + j) c). destruct (rd v (i * n + j)); cbn [bind]; congruence. }
+    destruct (mapM _ _); cbn [bind] in H; congruence.
+  - intros H. inversion H; subst. split; [reflexivity | exact E].
+Qed.
+
+Lemma mul_dense_dense_exn m0 n0 v0 m n v c :
+  mul_dense_dense m0 n0 v0 m n v = ErrExn c -> c = EXN_DOMAIN /\ n0 <> m.
+Proof.
+  unfold mul_dense_dense. destruct (Nat.eqb_spec n0 m) as [E|E]; cbn [negb].
+  - intros H. exfalso. unfold tab2 in H.
+    match type of H with (do p <- mapM ?f ?l; _) = _ => assert (G : mapM f l <> ErrExn c) end.
+    { apply mapM_noexn. intros [i j]. cbn [fst snd]. apply foldM_noexn. intros acc k.
+      pose proof (rd_noexn v0 (i * n0 + k) c). destruct (rd v0 (i * n0 + k)); cbn [bind]; try congruence.
+      pose proof (rd_noexn v (k * n + j) c). destruct (rd v (k * n + j)); cbn [bind]; congruence. }
+    destruct (mapM _ _); cbn [bind] in H; congruence.
+  - intros H. inversion H; subst. split; [reflexivity | exact E].
+Qed.
+
+Lemma mul_diag_dense_exn d0 m n v c :
+  mul_diag_dense d0 m n v = ErrExn c -> c = EXN_DOMAIN /\ length d0 <> m.
+Proof.
+  unfold mul_diag_dense. destruct (Nat.eqb_spec (length d0) m) as [E|E]; cbn [negb].
+  - intros H. exfalso. unfold tab2 in H.
+    match type of H with (do p <- mapM ?f ?l; _) = _ => assert (G : mapM f l <> ErrExn c) end.
+    { apply mapM_noexn. intros [i j]. cbn [fst snd].
+      pose proof (rd_noexn d0 i c). destruct (rd d0 i); cbn [bind]; try congruence.
+      pose proof (rd_noexn v (i * n + j) c). destruct (rd v (i * n + j)); cbn [bind]; congruence. }
+    destruct (mapM _ _); cbn [bind] in H; congruence.
+  - intros H. inversion H; subst. split; [reflexivity | exact E].
+Qed.
+
+(* a step of the folding loop throws only when the accumulated concrete product and the next
+   concrete factor do not fit: which two operands are multiplied, and their sizes *)
+Lemma mul_step_exn st x c :
+  mul_step st x = ErrExn c ->
+  c = EXN_DOMAIN /\
+  ((exists d0 d, m_diag st = Some d0 /\ x = MDiag d /\ length d0 <> length d) \/
+   (exists m n v d, m_diag st = None /\ m_dense st = Some (m, n, v) /\ x = MDiag d /\ length d <> n) \/
+   (exists m0 n0 v0 m n v, m_dense st = Some (m0, n0, v0) /\ x = MDense m n v /\ n0 <> m) \/
+   (exists d0 m n v, m_dense st = None /\ m_diag st = Some d0 /\ x = MDense m n v /\ length d0 <> m)).
 Proof.
   unfold mul_step. destruct x; try discriminate.
   - destruct (m_diag st) as [d0|].
-    + unfold mul_diag_diag. pose proof (zipc_noexn emul d0 d 0 c). destruct (zipc emul d0 d 0); cbn [bind]; congruence.
+    + destruct (mul_diag_diag d0 d) eqn:Em; cbn [bind]; try discriminate.
+      intros H. inversion H; subst. destruct (mul_diag_diag_exn _ _ _ Em) as [-> Hl].
+      split; [reflexivity|]. left. eauto.
     + destruct (m_dense st) as [[[m n] v]|]; [|discriminate].
-      assert (H : mul_dense_diag m n v d <> ErrExn c).
-      { unfold mul_dense_diag, tab2.
-        assert (G : mapM (fun ij : nat * nat => do x <- rd d (snd ij); do y <- rd v (fst ij * n + snd ij); Ok (emul y x))
-                      (list_prod (seq 0 m) (seq 0 n)) <> ErrExn c).
-        { apply mapM_noexn. intros [i j]. cbn [fst snd].
-          pose proof (rd_noexn d j c). destruct (rd d j); cbn [bind]; try congruence.
-          pose proof (rd_noexn v (i * n + j) c). destruct (rd v (i * n + j)); cbn [bind]; congruence. }
-        destruct (mapM _ _); cbn [bind]; congruence. }
-      destruct (mul_dense_diag m n v d); cbn [bind]; congruence.
+      destruct (mul_dense_diag m n v d) eqn:Em; cbn [bind]; try discriminate.
+      intros H. inversion H; subst. destruct (mul_dense_diag_exn _ _ _ _ _ Em) as [-> Hl].
+      split; [reflexivity|]. right. left. exists m, n, v, d. auto.
   - destruct (m_dense st) as [[[m0 n0] v0]|].
-    + assert (H : mul_dense_dense m0 n0 v0 m n v <> ErrExn c).
-      { unfold mul_dense_dense, tab2.
-        match goal with |- (do p <- mapM ?f ?l; _) <> _ => assert (G : mapM f l <> ErrExn c) end.
-        { apply mapM_noexn. intros [i j]. cbn [fst snd]. apply foldM_noexn. intros acc k.
-          pose proof (rd_noexn v0 (i * n0 + k) c). destruct (rd v0 (i * n0 + k)); cbn [bind]; try congruence.
-          pose proof (rd_noexn v (k * n + j) c). destruct (rd v (k * n + j)); cbn [bind]; congruence. }
-        destruct (mapM _ _); cbn [bind]; congruence. }
-      destruct (mul_dense_dense m0 n0 v0 m n v); cbn [bind]; congruence.
+    + destruct (mul_dense_dense m0 n0 v0 m n v) eqn:Em; cbn [bind]; try discriminate.
+      intros H. inversion H; subst. destruct (mul_dense_dense_exn _ _ _ _ _ _ _ Em) as [-> Hl].
+      split; [reflexivity|]. right. right. left. exists m0, n0, v0, m, n, v. auto.
     + destruct (m_diag st) as [d0|]; [|discriminate].
-      assert (H : mul_diag_dense d0 m n v <> ErrExn c).
-      { unfold mul_diag_dense, tab2.
-        match goal with |- (do p <- mapM ?f ?l; _) <> _ => assert (G : mapM f l <> ErrExn c) end.
-        { apply mapM_noexn. intros [i j]. cbn [fst snd].
-          pose proof (rd_noexn d0 i c). destruct (rd d0 i); cbn [bind]; try congruence.
-          pose proof (rd_noexn v (i * n + j) c). destruct (rd v (i * n + j)); cbn [bind]; congruence. }
-        destruct (mapM _ _); cbn [bind]; congruence. }
-      destruct (mul_diag_dense d0 m n v); cbn [bind]; congruence.
+      destruct (mul_diag_dense d0 m n v) eqn:Em; cbn [bind]; try discriminate.
+      intros H. inversion H; subst. destruct (mul_diag_dense_exn _ _ _ _ _ Em) as [-> Hl].
+      split; [reflexivity|]. right. right. right. exists d0, m, n, v. auto.
+Qed.
+
+(* ... and then the product of the factors processed so far with that factor is undefined *)
+Lemma mul_step_exn_undefined rho p st x c :
+  mul_inv rho p st -> mul_step st x = ErrExn c -> fst (chain rho (p ++ [x])) = None.
+Proof.
+  intros (Hone & HB & HC) Hstep.
+  destruct (fst (chain rho (p ++ [x]))) as [s|] eqn:Hs; [|reflexivity]. exfalso.
+  destruct (mul_step_exn st x c Hstep) as [_ Hcase].
+  assert (HL : flush st <> []).
+  { unfold flush. destruct Hcase as [(d0 & d & E & _)|[(m & n & v & d & E1 & E2 & _)|[(m0 & n0 & v0 & m & n & v & E & _)|(d0 & m & n & v & _ & E & _)]]].
+    - rewrite E. apply app_nonempty.
+    - rewrite E1, E2. apply app_nonempty.
+    - destruct (m_diag st); [apply app_nonempty|]. rewrite E. apply app_nonempty.
+    - rewrite E. apply app_nonempty. }
+  destruct (HB HL) as [Hp E].
+  assert (Hs' : fst (chain rho (flush st ++ [x])) = Some s).
+  { destruct (chain_snoc rho (flush st) x HL) as [E1 _]. rewrite E1.
+    destruct (chain_snoc rho p x Hp) as [E2 _]. rewrite E2 in Hs. cbn [prod_sv fst] in *.
+    destruct E as [E3 _]. now rewrite <- E3. }
+  destruct Hcase as [(d0 & d & Ed & -> & Hl)|[(m & n & v & d & Ed & Ede & -> & Hl)|[(m0 & n0 & v0 & m & n & v & Ede & -> & Hl)|(d0 & m & n & v & Ede & Ed & -> & Hl)]]].
+  - rewrite (flush_diag st d0 Ed) in Hs'.
+    destruct (chain_defined_last rho _ _ _ _ Hs') as (sa & sb & A & B & C).
+    rewrite shp_MDiag in A, B. inversion A; subst sa. inversion B; subst sb. cbn [fst snd] in C. congruence.
+  - rewrite (flush_dense st m n v Ed Ede) in Hs'.
+    destruct (chain_defined_last rho _ _ _ _ Hs') as (sa & sb & A & B & C).
+    apply shp_MDense_Some in A. destruct A as [Lv ->]. rewrite shp_MDiag in B. inversion B; subst sb.
+    cbn [fst snd] in C. congruence.
+  - assert (Ed : m_diag st = None) by (destruct Hone; congruence).
+    rewrite (flush_dense st m0 n0 v0 Ed Ede) in Hs'.
+    destruct (chain_defined_last rho _ _ _ _ Hs') as (sa & sb & A & B & C).
+    apply shp_MDense_Some in A. destruct A as [Lv0 ->].
+    apply shp_MDense_Some in B. destruct B as [Lv ->]. cbn [fst snd] in C. congruence.
+  - rewrite (flush_diag st d0 Ed) in Hs'.
+    destruct (chain_defined_last rho _ _ _ _ Hs') as (sa & sb & A & B & C).
+    rewrite shp_MDiag in A. inversion A; subst sa.
+    apply shp_MDense_Some in B. destruct B as [Lv ->]. cbn [fst snd] in C. congruence.
+Qed.
+
+Lemma mul_loop_exn_undefined rho l c : forall p st,
+  mul_inv rho p st -> foldM mul_step l st = ErrExn c -> fst (chain rho (p ++ l)) = None.
+Proof.
+  induction l as [|x l IH]; intros p st HI H; cbn [foldM] in H; [discriminate|].
+  destruct (fst (chain rho (p ++ x :: l))) as [s|] eqn:Hs; [|reflexivity]. exfalso.
+  replace (p ++ x :: l) with ((p ++ [x]) ++ l) in Hs by (rewrite <- app_assoc; reflexivity).
+  destruct (chain_prefix_defined rho (p ++ [x]) l s (app_nonempty p x) Hs) as [s1 Hs1].
+  destruct (mul_step st x) as [st1| | |] eqn:E; cbn [bind] in H; try discriminate.
+  - pose proof (mul_step_inv rho p st x st1 s1 HI Hs1 E) as HI1.
+    rewrite (IH _ _ HI1 H) in Hs. discriminate.
+  - inversion H; subst. rewrite (mul_step_exn_undefined rho p st x c HI E) in Hs1. discriminate.
 Qed.
 
 Theorem matrix_mul_error_sound rho args :
@@ -234,10 +329,12 @@ Proof.
       unfold chain. rewrite chain_sv_shape, map_map. rewrite shp_MMul in Es. exact Es. }
     destruct (check_matching_mul_sizes expanded) as [[]| | |] eqn:Ec; cbn [bind] in Hm; try discriminate.
     - destruct (first_zero_arg args); [discriminate|].
-      pose proof (foldM_noexn mul_step expanded
-                    {| m_keep := []; m_diag := None; m_dense := None; m_ident := None |} EXN_DOMAIN
-                    (fun s0 x => mul_steps_noexn s0 x EXN_DOMAIN)) as Hf.
-      destruct (foldM mul_step expanded _) as [st| | |]; cbn [bind] in Hm; try discriminate; [|congruence].
+      assert (HI0 : mul_inv rho [] {| m_keep := []; m_diag := None; m_dense := None; m_ident := None |}).
+      { split; [now left|]. split; [intros H0; exfalso; apply H0; reflexivity|].
+        intros _. split; [reflexivity|]. left. split; reflexivity. }
+      pose proof (mul_loop_exn_undefined rho expanded EXN_DOMAIN [] _ HI0) as Hf. cbn [app] in Hf.
+      destruct (foldM mul_step expanded _) as [st| | |]; cbn [bind] in Hm; try discriminate;
+        [|inversion Hm; subst; rewrite (Hf eq_refl) in Hsh; discriminate].
       cbv zeta in Hm.
       destruct (match flush st, m_ident st with [] , Some n => [MIdent n] | k, _ => k end) as [|x [|y l]];
         cbn iota beta in Hm; try discriminate. destruct (e_eqb scalar e1); discriminate.
@@ -251,6 +348,26 @@ Proof.
     + exact (Hbody _ eq_refl H).
     + exact (Hbody _ eq_refl H).
 Qed.
+
+(* the former finding C26/matrix_mul:unchecked-fold-after-identity (repaired by 3d415cb): the factors
+   around a dropped identity matrix of symbolic size were folded although their sizes had never been
+   compared ([1,2] * I_n * [1,2,3]^T gave [5]; longer chains read out of range).  The folding helpers
+   now throw DomainError on the former witnesses, and by the theorem above that is not spurious. *)
+Definition qz (z : Z) : ent := (Q2Qc (inject_Z z), qc0).
+
+Example fold_after_identity_rejected :
+  matrix_mul [AMat (MDense 1 2 [qz 1; qz 2]); AMat (MIdent (DSym 30)); AMat (MDense 3 1 [qz 1; qz 2; qz 3])]
+    = ErrExn EXN_DOMAIN /\
+  matrix_mul [AMat (MDiag [qz 1; qz 2]); AMat (MIdent (DSym 30)); AMat (MDiag [qz 1; qz 2; qz 3])]
+    = ErrExn EXN_DOMAIN /\
+  matrix_mul [AMat (MDense 1 2 [qz 2; qz 0]); AMat (MDense 2 4 [qz 0; qz 3; qz 3; qz 0; qz 0; qz 1; qz 0; qz 0]);
+              AMat (MIdent (DSym 30)); AScal (qz 1); AMat (MDense 3 1 [qz 0; qz 2; qz (-1)])]
+    = ErrExn EXN_DOMAIN /\
+  matrix_mul [AMat (MDiag [qz 1; qz 2]); AMat (MIdent (DSym 30)); AMat (MDense 3 1 [qz 1; qz 2; qz 3])]
+    = ErrExn EXN_DOMAIN /\
+  matrix_mul [AMat (MDense 1 2 [qz 1; qz 2]); AMat (MIdent (DSym 30)); AMat (MDiag [qz 1; qz 2; qz 3])]
+    = ErrExn EXN_DOMAIN.
+Proof. repeat split; vm_compute; reflexivity. Qed.
 
 (* ---------------------------------------------------------------- hadamard_product *)
 Lemma had_step_noexn st x c : had_step st x <> ErrExn c.
